@@ -211,6 +211,12 @@ impl<'a> History<'a> {
         if hp.external_sender {
             let cs = w.parties[creator].suite_provider(w.cfg.suite);
             w.external_sender = Some(make_identity(&cs, b"external-sender"));
+            if case.c(9) % 2 == 0 {
+                // same credential with another (older) key in front, an unrelated service behind
+                let (_, older) = make_identity(&cs, b"external-sender");
+                let (_, other) = make_identity(&cs, b"other-service");
+                w.external_sender_decoys = vec![older, other];
+            }
         }
         if let Err(e) = w.create_group(creator) {
             return Err(setup_failure(prop, "create_group", &e));
@@ -372,6 +378,26 @@ impl<'a> History<'a> {
                     let q = &self.w.parties[p];
                     let c = build_client_with_lifetime(q.crypto.clone(), q.idp.clone(), q.gstore.clone(), q.kstore.clone(), q.pstore.clone(), Default::default(), q.identity.clone(), q.signer.clone(), suite, 86400);
                     let kp = guard(|| c.generate_key_package_message(Default::default(), Default::default(), Some(mls_rs::time::MlsTime::from(T0 - 10 * 86400)))).map_err(|e| setup_failure(prop, "generate_key_package", &e))?;
+                    let party = &mut self.w.parties[a];
+                    let ad = aad.clone();
+                    match guard(|| party.gm().propose_add(kp, ad)) {
+                        Ok(m) => {
+                            self.w.push_proposal(a, m, aad).map_err(|e| setup_failure(prop, "encode", &e))?;
+                            self.stats.proposals += 1;
+                            self.stats.doomed_adds += 1;
+                        }
+                        Err(e) => return Err(op_failure(prop, "propose_add", &e)),
+                    }
+                    return Ok(());
+                }
+                if self.hp.doomed_adds && op[2] % 7 == 1 && !self.notes.pending_adds.is_empty() {
+                    // a second Add for a client somebody has already proposed (another key package of the same client): one of
+                    // the two has to give way in the commit
+                    let p = self.notes.pending_adds[pick(op[3], self.notes.pending_adds.len())];
+                    let kp = match self.w.key_package(p) {
+                        Ok(k) => k,
+                        Err(e) => return Err(setup_failure(prop, "generate_key_package", &e)),
+                    };
                     let party = &mut self.w.parties[a];
                     let ad = aad.clone();
                     match guard(|| party.gm().propose_add(kp, ad)) {
